@@ -29,6 +29,8 @@ state element by its kind name), input port bits, assign pairs and undriven name
     exactly (restriction / extension, same values on the original lines, same assignment on the original nodes) the labellings
     of environments `σ` that satisfy the module outside the library instances and give every library instance the RELATIONAL
     meaning `ImplMatches` of its implementation circuit.  Any value domain / op algebra.
+    `verilog_resolved_rel_general` — **(b')** the same composed with `C10.resolve_sem_general` (hypothesis `resolveGenOKB`: substitutions
+    that remove lines, instances and dangling logic — ignored input pins, cells without designated cell), along the index maps `ρ`.
   - `verilog_resolved_datasheet` — **(c)** the datasheet step (2-valued): with the certificate `InstCert` of
     `C10.resolve_datasheet_sem` for every library-cell node, "relational meaning of the implementation" becomes the module-level
     equation of `VModelLib` (`Proofs/VerilogLib3.lean: cellDatasheet_iff_module` — pins by NAME of the signal connected).
@@ -137,6 +139,60 @@ theorem verilog_resolved_rel {α : Type} (cfg : Cfg) (tl : TL) (ports : List Str
         (∀ d, d < (verilogNet cfg tl ports stmts).nodes.size → (lib.find ((verilogNet cfg tl ports stmts).node d).kind).isSome = false →
           an' d = a ((verilogNet cfg tl ports stmts).sNodes.idxOf d))) :=
   KV.Netlist.verilog_resolved_rel (vok_of cfg tl ports stmts hok) lib (libClean_of hcl) h' hw hrok he z neg prim
+
+/-- **(b') the same through substitutions that REMOVE lines, instances and dangling logic** (composition with
+`C10.resolve_sem_general`, hypothesis `resolveGenOKB` ⊇ `resolveOKB`: library cells that ignore a connected input pin — tri-state
+buffers as `TechLib` reads them —, cells without designated cell — fillers, antennas —, unconnected outputs with dangling logic;
+parsed dump well-formed up to trailing `None`s): index maps `ρ` from the resolved circuit to the parsed one (node `j` / line `l'` of the
+result IS node `ρ.node j` / line `ρ.line l'` of the parsed circuit when that is an index of the parsed circuit; ports in order);
+(1) every consistent labelling of the result is, along `ρ`, the labelling of an environment of the WHOLE module (removed lines
+included) that satisfies the module outside the library instances and gives every library instance the relational meaning of its
+implementation with its original pins; (2) conversely -/
+theorem verilog_resolved_rel_general {α : Type} (cfg : Cfg) (tl : TL) (ports : List String) (stmts : List Stmt)
+    (hok : verilogOKB cfg tl ports stmts = true) (lib : Lib) (hcl : libCleanB lib stmts = true) (h' : NNet)
+    (hw : (verilogNNet cfg tl ports stmts).wfNoTrail = true)
+    (hrok : resolveGenOKB lib (verilogNNet cfg tl ports stmts).keys (verilogNNet cfg tl ports stmts) = true)
+    (he : resolveCells lib (verilogNNet cfg tl ports stmts) = some h') (z : α) (neg : α → α) (prim : String → α → α → α → α → α) :
+    h'.wfNoTrail = true ∧ ∃ ρ : Ren, h'.net.io.map ρ.node = (verilogNet cfg tl ports stmts).io ∧
+    (∀ an' v' : Nat → α, ConsOff h' (fun _ => False) z neg prim an' v' →
+      ∃ (an : Nat → α) (σ : String → α),
+        VModelOff (isLibInst lib) tl ports stmts z neg prim (fun p => an ((verilogNet cfg tl ports stmts).sNodes.getD p 0)) σ ∧
+        LibRel cfg tl ports stmts lib z neg prim σ ∧
+        (∀ l', l' < h'.net.lines.size → ρ.line l' < (verilogNet cfg tl ports stmts).lines.size →
+          v' l' = vLabel cfg tl stmts z prim σ (ρ.line l')) ∧
+        (∀ j, j < h'.net.nodes.size → ρ.node j < (verilogNet cfg tl ports stmts).nodes.size → an (ρ.node j) = an' j)) ∧
+    (∀ (a : Nat → α) (σ : String → α), VModelOff (isLibInst lib) tl ports stmts z neg prim a σ →
+      LibRel cfg tl ports stmts lib z neg prim σ →
+      ∃ an' v', ConsOff h' (fun _ => False) z neg prim an' v' ∧
+        (∀ l', l' < h'.net.lines.size → ρ.line l' < (verilogNet cfg tl ports stmts).lines.size →
+          v' l' = vLabel cfg tl stmts z prim σ (ρ.line l')) ∧
+        (∀ j, j < h'.net.nodes.size → ρ.node j < (verilogNet cfg tl ports stmts).nodes.size →
+          an' j = a ((verilogNet cfg tl ports stmts).sNodes.idxOf (ρ.node j)))) :=
+  KV.Netlist.verilog_resolved_rel_general (vok_of cfg tl ports stmts hok) lib (libClean_of hcl) h' hw hrok he z neg prim
+
+/-- hypotheses of `verilog_resolved_rel_general` are satisfiable where `verilog_resolved_rel` does not apply (`resolveOKB` false):
+`module t(a, en, y); input a, en; output y; TBUF u(.A(a), .EN(en), .Z(y)); ANTENNA ant(.A(en)); endmodule` over the library of the
+C10 examples (`exTbuf` ignores its enable pin, `exAnt` has no output: the instance is removed); the result has 7 of the 8 nodes and
+5 of the 7 lines -/
+def exTLg : TL := fun k p =>
+  if k == "TBUF" then (if p == "A" then some (0, false) else if p == "EN" then some (1, false) else if p == "Z" then some (0, true) else none)
+  else if k == "ANTENNA" then (if p == "A" then some (0, false) else none)
+  else none
+def exGS : List Stmt := [.decls [⟨.input, "a", none⟩, ⟨.input, "en", none⟩], .decls [⟨.output, "y", none⟩],
+  .inst "TBUF" "u" [("A", .one "a"), ("EN", .one "en"), ("Z", .one "y")],
+  .inst "ANTENNA" "ant" [("A", .one "en")]]
+def exLibG : Lib := [("TBUF", KV.C10.exTbuf), ("ANTENNA", KV.C10.exAnt)]
+example : verilogOKB {} exTLg ["a", "en", "y"] exGS = true ∧ libCleanB exLibG exGS = true ∧
+    (verilogNNet {} exTLg ["a", "en", "y"] exGS).wfNoTrail = true ∧
+    resolveGenOKB exLibG (verilogNNet {} exTLg ["a", "en", "y"] exGS).keys
+      (verilogNNet {} exTLg ["a", "en", "y"] exGS) = true ∧
+    resolveOKB exLibG (verilogNNet {} exTLg ["a", "en", "y"] exGS).keys
+      (verilogNNet {} exTLg ["a", "en", "y"] exGS) = false ∧
+    (verilogNNet {} exTLg ["a", "en", "y"] exGS).net.nodes.size = 8 ∧ (verilogNNet {} exTLg ["a", "en", "y"] exGS).net.lines.size = 7 ∧
+    (resolveCells exLibG (verilogNNet {} exTLg ["a", "en", "y"] exGS)).map
+      (fun r => (r.kindNames, r.net.lines.size)) =
+      some ([("BUF1", "u"), ("__fork__", "y"), ("output", "y"), ("input", "a"), ("__fork__", "a"), ("input", "en"), ("__fork__", "en")], 5) := by
+  decide +kernel
 
 /-- **(c) resolved labellings ↔ DATASHEET models of the module** (2-valued; every library-cell node certified) -/
 theorem verilog_resolved_datasheet (cfg : Cfg) (tl : TL) (ports : List String) (stmts : List Stmt)
